@@ -6,6 +6,6 @@ CONSTANTS
   Packages = {}
   K = 3
   Fmts = {"epub"}
-  Wide = FALSE
+  Wide = "neg"
 INVARIANTS TypeOK ValidPackage DeclaredPrefix DeclaredOrder OwnPage
 CHECK_DEADLOCK FALSE
